@@ -1547,7 +1547,9 @@ _ical_pull(struct ical_parser_s p[static 1U])
 		if (LIKELY(!BZ || (*BP != ' ' && *BP != '\t'))) {
 			goto proc;
 		}
-		/* just get on with it */
+		/* just get on with it, the newline in front of this
+		 * whitespace was unfolded with the previous buffer */
+		BI++;
 	}
 chop_more:
 	/* chop _p->buf into lines (possibly multilines) */
